@@ -267,11 +267,29 @@ def run(chk):
             o = dict(base)
             o.update(psinorm_sol=1.2)
             eq_cases.append(dict(cfg=tok(f"c19_{fam}_hf", fam, o, sign=sgn, wall="high_floor"), family=fam, sign=sgn, psinorm_sol=1.2, wall="high_floor"))
-    rc, res, o, e = common.run_impl_json("impl/critical.py", dict(cases=cases, eq_cases=eq_cases), timeout=1500)
+    # analytic sheared double nulls with both X-points at the same major radius, at sub-grid positions
+    sheared = [dict(k=0.5, sigma=-0.7, Zx=0.3, R0=1.503, Z0=0.007, n=129, rmin=1.2, rmax=1.8, zmin=-0.5, zmax=0.5)]
+    for _ in range(5 if chk.tier == "quick" else 40):
+        sheared.append(dict(k=rng.choice([0.3, 0.5, 1.0]), sigma=rng.choice([-0.7, -0.4, 0.5]), Zx=round(rng.uniform(0.27, 0.33), 4), R0=round(1.5 + rng.uniform(-0.004, 0.004), 5),
+                            Z0=round(rng.uniform(-0.008, 0.008), 5), n=rng.choice([97, 129]), rmin=1.2, rmax=1.8, zmin=-0.5, zmax=0.5))
+    rc, res, o, e = common.run_impl_json("impl/critical.py", dict(cases=cases, eq_cases=eq_cases, sheared_cases=sheared), timeout=1500)
     if res is None:
         chk.tie_broken("impl/critical.py", f"implementation run failed rc={rc}: {(o + e)[-1500:]}")
         return
     n = 0
+    for c, r in zip(sheared, res.get("sheared", [])):
+        if "error" in r:
+            chk.fail("find_critical:raised", "find_critical raised on a smooth flux function (sheared double null)", dict(case=c, error=r["error"]))
+            continue
+        truth = [("O", c["R0"] - c["sigma"] * c["Zx"] / 2, c["Z0"])] + [("X", c["R0"], c["Z0"] + c["Zx"]), ("X", c["R0"], c["Z0"] - c["Zx"])]
+        for kind, tr_, tz_ in truth:
+            got = r["opoints"] if kind == "O" else r["xpoints"]
+            hits = [p for p in got if math.hypot(p[0] - tr_, p[1] - tz_) < 2e-3]
+            n += 1
+            if len(hits) != 1:
+                chk.fail(f"exactly-once:{kind}-point:returned-{len(hits)}-times", f"an {kind}-point inside the searched interior is not returned exactly once", dict(case=c, point=[tr_, tz_], returned=got))
+        if len(r["xpoints"]) != 2 or len(r["opoints"]) != 1:
+            chk.fail("exactly-once:count", "find_critical returns a different number of critical points than the flux function has", dict(case=c, opoints=r["opoints"], xpoints=r["xpoints"]))
     stats = dict(pos=0.0, n_o=0, n_x=0, filtered_x=0)
     batches, bmeta = [], []
     for ci, (c, r) in enumerate(zip(cases, res["cases"])):
